@@ -176,7 +176,7 @@ theorem starFilter_sublist : ∀ (seen l : List (Vec Rat)), (starFilter seen l).
     unfold starFilter
     split
     · exact (starFilter_sublist _ rest).cons _
-    · exact (starFilter_sublist _ rest).cons₂ _
+    · exact (starFilter_sublist _ rest).cons_cons _
 
 /-- survivors are pairwise inequivalent, and inequivalent to everything seen before -/
 theorem starFilter_inequiv : ∀ (seen l : List (Vec Rat)),
